@@ -270,6 +270,24 @@ def run(R, P="C09"):
         rs = ret_srcs(syn)
         R.check(len(ra) == 1 and rs == [ra[0] + ".value()"], P + ".ROUTE", syn.qualname, R.site(syn),
                 "the synchronous call is .value() of the very expression .asynq returns", "the synchronous call returns %s, not (%s).value()" % (rs, ra[0] if ra else None))
+    # make_async_decorator hands the user's wrapper (any callable that returns a future) to AsyncWrapper as it is, and AsyncWrapper
+    # calls exactly that: a wrapper that is "normalised" first (get_async_fn(..., wrap_if_none=True) boxes what a plain function
+    # returns in a ConstFuture) makes every convention deliver the inner task object instead of its result
+    mad = repo.modules["decorators"].functions.get("make_async_decorator")
+    R.need(mad is not None, "anchor vanished: decorators.make_async_decorator")
+    wp = q.param_names(mad.node)[1]
+    rebound = [n for n in q.scope_nodes(mad.node) if isinstance(n, (ast.Assign, ast.AugAssign)) and wp in q.names_stored(n)]
+    decs = [c for c in q.calls(mad.node) if (q.call_name(c) or "").split(".")[-1] == "decorate" and c.args and q.src(c.args[0]).split(".")[-1] == "AsyncWrapper"]
+    okw = len(decs) == 1 and len(decs[0].args) >= 2 and q.src(decs[0].args[1]) == wp and not rebound
+    R.check(okw, P + ".ROUTE", mad.qualname + ":wrapper", R.site(mad, (rebound or decs or [mad.node])[0]),
+            "make_async_decorator builds AsyncWrapper from the wrapper function it was given",
+            "make_async_decorator does not hand `%s` itself to AsyncWrapper (%s): an ordinary function that returns a future - the documented kind of wrapper - "
+            "is taken for a synchronous function and its future is boxed, so every calling convention delivers the uncomputed inner task"
+            % (wp, "; ".join(q.src(n)[:60] for n in rebound) or "other argument"))
+    ca_ = aw.methods.get("_call_async")
+    via_ = ret_srcs(ca_) if ca_ is not None else ret_srcs(aw.methods["asynq"])
+    R.check(via_ == ["self.wrapper_fn(*args, **kwargs)"], P + ".ROUTE", aw.qualname + ":calls-wrapper", R.site(aw.module, aw.node),
+            "AsyncWrapper calls self.wrapper_fn(*args, **kwargs)", "AsyncWrapper's asynchronous call returns %s" % via_)
     cpa = ret_srcs(ad.methods["asynq"])
     R.check(cpa == ["self._call_pure(args, kwargs)"], P + ".ROUTE", ad.qualname + ":call_pure", R.site(ad.methods["asynq"]),
             "AsyncDecorator.asynq goes through _call_pure(args, kwargs)", "AsyncDecorator.asynq returns %s" % cpa)
@@ -297,6 +315,32 @@ def run(R, P="C09"):
     inner = [c for c in q.calls(fw.node) if q.call_name(c) == "self.fn"]
     R.check(len(inner) == 1 and forwards(inner[0], "args", "kwargs") == "full", P + ".ROUTE", fw.qualname, R.site(fw),
             "the wrapper calls self.fn(*args, **kwargs)", "the wrapper does not call self.fn(*args, **kwargs)")
+    # ... and completes the task with whatever the function returned, unconditionally (a plain body may return anything a generator
+    # body may return after its last yield - a future object included)
+    if len(inner) == 1:
+        par = getattr(inner[0], "_parent", None)
+        how = None
+        if isinstance(par, ast.Call) and isinstance(getattr(par, "_parent", None), ast.Raise) and (q.call_name(par) or "").split(".")[-1] == "AsyncTaskResult":
+            how = "direct"
+        elif isinstance(par, ast.Call):
+            nm_ = q.call_name(par) or ""
+            tgt = None
+            for c_, tg_, k_ in R.res.callees(fw):
+                if c_ is par and k_ in ("resolved", "cha") and tg_:
+                    tgt = tg_[0]
+            if tgt is not None:
+                conditional = [x for x in ast.walk(tgt.node) if isinstance(x, (ast.Assert, ast.If, ast.Try))]
+                raises_ = [x for x in ast.walk(tgt.node) if isinstance(x, ast.Raise) and isinstance(x.exc, ast.Call) and (q.call_name(x.exc) or "").split(".")[-1] == "AsyncTaskResult"]
+                how = "helper" if raises_ and not conditional else "conditional:%s" % tgt.qualname
+            else:
+                how = "unresolved:%s" % nm_
+        elif isinstance(par, ast.Return):
+            how = "direct"
+        R.check(how in ("direct", "helper"), P + ".ROUTE", fw.qualname + ":result", R.site(fw, inner[0]),
+                "the wrapper hands the function's return value to the task as it is",
+                "the wrapper passes the function's return value through %s, which accepts only some values (an assertion / a test on the value): a plain body "
+                "that returns a future object fails with AssertionError, while the same function written as a generator hands the future back - the calling "
+                "conventions no longer agree" % (how or "?").split(":")[-1])
     # proxy: _call_pure returns self.fn(*args, **kwargs)
     apd = repo.cls("decorators.AsyncProxyDecorator")
     pcp = apd.methods.get("_call_pure")
